@@ -1746,6 +1746,29 @@ class Interp:
                     return ClassTok(ename)
                 return self.enum_by_value(f.name, args[0] if args else None)
             c = self.repo.cls(f.name)
+            if getattr(self, "class_caches", None) is not None and any("lru_cache" in d for d in c.decorators) and not getattr(self, "_in_cache_fill", False):
+                # a class wrapped in functools.lru_cache (opt-in model): a constructor call whose arguments equal - by the
+                # interpreted __eq__ of the argument classes, positional / keyword spelling kept apart as functools does - those
+                # of an earlier call is served that call's object.  Eviction is not modelled (functools is trusted).
+                key = (tuple(args), tuple(kwargs.items()))
+                table = self.class_caches.setdefault(f.name, [])
+                try:
+                    for k_, o_ in table:
+                        if k_ == key:
+                            return o_
+                    hashable = all(not isinstance(x, (list, dict, SetVal)) for x in list(args) + list(kwargs.values()))
+                except Raised:
+                    raise
+                self._in_cache_fill = True
+                try:
+                    o_ = self.apply(f, args, kwargs, func, depth, node)
+                finally:
+                    self._in_cache_fill = False
+                if hashable:
+                    table.append((key, o_))
+                    if len(table) > 4000:
+                        del table[:1000]
+                return o_
             init = self.repo.lookup_method(c, "__init__")
             new = self.repo.lookup_method(c, "__new__")
             if new is not None:
